@@ -25,8 +25,9 @@ from superrec2.utils.trees import LowestCommonAncestor
 
 ID = "C17"
 RULE = (
-    "trees: every ordered rooted shape up to 6 (quick) / 7 (thorough) nodes, built as ete3 trees with "
-    "unique names, with lca() on every single node, ordered pair and ordered triple of nodes and the five "
+    "trees: every ordered rooted shape up to 6 (quick) / 7 (thorough) nodes, built as ete3 trees whose nodes are "
+    "named uniquely / all unnamed ('') / all alike / from {a, b} (a deterministic function of the shape: names are not "
+    "part of the definitions), with lca() on every single node, ordered pair and ordered triple of nodes and the five "
     "derived queries on every ordered pair; random trees up to 40 nodes (random recursive, caterpillars, "
     "stars, chains, bushy) with sampled pairs, triples and larger node sets; arrays: every non-empty array "
     "up to length 6 / 9 over {0,1,2} with every (start, stop) in [0, n]^2 (empty ranges included), random "
@@ -85,17 +86,38 @@ def shapes(n):
     return forests(n - 1)
 
 
-def build(shape):
+NAMINGS = ["unique", "unnamed", "all-equal", "two-letters"]
+
+
+def naming_of(shape):
+    """Deterministic choice of how the nodes of a shape are NAMED (names are not part of the queries' definitions:
+    the same shape is built with unique names, with the empty name Newick gives unnamed nodes, with one name for
+    every node, or with names from {a, b} — repeated along root-to-leaf paths)."""
+    import zlib
+
+    return zlib.crc32(repr(shape).encode()) % len(NAMINGS)
+
+
+def build(shape, naming=0):
     """ete3 tree of a nested-list shape; returns (root, [(path, node)] in preorder)."""
+    def name(path):
+        if naming == 1:
+            return ""
+        if naming == 2:
+            return "x"
+        if naming == 3:
+            return "ab"[(len(path) + sum(path)) % 3 % 2]
+        return "n" + "_".join(map(str, path)) if path else "r"
+
     root = Tree()
-    root.name = "r"
+    root.name = name(())
     nodes = []
 
     def rec(node, sh, path):
         nodes.append((path, node))
         for i, sub in enumerate(sh):
             child = Tree()
-            child.name = "n" + "_".join(map(str, path + (i,)))
+            child.name = name(path + (i,))
             node.add_child(child)
             rec(child, sub, path + (i,))
 
@@ -198,9 +220,10 @@ def err(e):
 
 
 class TreeCase:
-    def __init__(self, shape):
+    def __init__(self, shape, naming=None):
         self.shape = shape
-        self.root, self.nodes = build(shape)
+        self.naming = naming_of(shape) if naming is None else naming
+        self.root, self.nodes = build(shape, self.naming)
         self.by_path = {p: n for p, n in self.nodes}
         self.path_of = {id(n): list(p) for p, n in self.nodes}
         self.lca = LowestCommonAncestor(self.root)
@@ -301,7 +324,7 @@ def finish_tree(ctx, res, job, outs):
     nt = 0
     for q, mo in zip(node_sets, m_lca):
         q = [list(p) for p in q]
-        case = {"kind": "lca", "tree": shape, "nodes": q}
+        case = {"kind": "lca", "tree": shape, "names": tc.naming, "nodes": q}
         io = tc.impl_lca(q)
         exp = tc.spec_lca(q)
         if io != exp:
@@ -320,7 +343,7 @@ def finish_tree(ctx, res, job, outs):
                            {"kind": "lca", "tree": shape, "nodes": q}, mo, io)
     for (a, b), mo in zip(pairs, m_q):
         a, b = list(a), list(b)
-        case = {"kind": "queries", "tree": shape, "a": a, "b": b}
+        case = {"kind": "queries", "tree": shape, "names": tc.naming, "a": a, "b": b}
         io = tc.impl_queries(a, b)
         exp = tc.spec_queries(a, b)
         if io != exp:
@@ -335,6 +358,7 @@ def finish_tree(ctx, res, job, outs):
     n = len(node_sets) + len(pairs)
     res.case({"kind": "tree", "tree": shape, "queries": n}, nontrivial=nt > 0, n=n)
     res.dist[bucket] += n
+    res.dist["node names: " + NAMINGS[tc.naming]] += 1
     res.dist["nontrivial-queries"] += nt
 
 
@@ -609,7 +633,7 @@ def replay(ctx, data):
             return True, "constructed"
         except Exception as e:  # noqa
             return False, f"LowestCommonAncestor(tree) raised {type(e).__name__}: {e}"
-    tc = TreeCase(case["tree"])
+    tc = TreeCase(case["tree"], case.get("names"))
     if kind == "lca":
         io, exp = tc.impl_lca(case["nodes"]), tc.spec_lca(case["nodes"])
     else:
